@@ -380,7 +380,7 @@ Record content := mkContent { c_w : N; c_h : N; c_pix : list N }.   (* expected 
 Inductive sop :=
 | SDraw (cid : nat) (pos : N * N)
 | SErase (cid : nat) (pos : option (N * N))
-| SResp (id : N) (pl : option N) (err : bool)
+| SResp (id : N) (pl : option N) (err : bool) (lost : bool)   (* lost: the terminal no longer holds the image *)
 | SOther.
 
 Record track := mkTrack {
@@ -469,6 +469,13 @@ Definition where_pos (id pid : N) (w : list (N * (N * N) * N)) : option (N * N) 
   | None => None
   end.
 
+Definition cur_eqb (a b : option (N * N)) : bool :=
+  match a, b with
+  | Some x, Some y => pos_eqb x y
+  | None, None => true
+  | _, _ => false
+  end.
+
 Definition with_store (t : track) (s : tstore) : track := mkTrack s (tk_ids t) (tk_sent t) (tk_where t).
 
 (* result of checking one call: the next tracker or a reason code *)
@@ -478,8 +485,9 @@ Definition check_step (contents : list content) (t : track) (o : sop) (bytes : l
   match parse_stream bytes with
   | None => Bad 101                              (* not a sequence of well-formed escape codes *)
   | Some its =>
+      (* an error response may be genuine (the terminal has lost the image: lost = true) or spurious *)
       let pre := match o with
-                 | SResp id _ true => store_forget id (clear_log (tk_store t))
+                 | SResp id _ true true => store_forget id (clear_log (tk_store t))
                  | _ => clear_log (tk_store t)
                  end in
       let s' := store_run pre its in
@@ -519,7 +527,12 @@ Definition check_step (contents : list content) (t : track) (o : sop) (bytes : l
                                         end in
                                  if negb sent_ok then Bad (if nmem id (tk_sent t) then 108 else 109)
                                  else if pid =? 0 then Bad 112
-                                 else if negb (pl_same after ((id, pid) :: before)) then Bad 110
+                                 (* a transmission replaces the image: the terminal drops its old placements *)
+                                 else if negb (pl_same after
+                                                 ((id, pid) :: match t_sent s' with
+                                                               | [] => before
+                                                               | _ => filter (fun p => negb (fst p =? id)) before
+                                                               end)) then Bad 110
                                  else match learn_where id pos pid (tk_where t) with
                                       | None => Bad 113
                                       | Some w' => Good (mkTrack s' ids' (id :: tk_sent t) w')
@@ -561,16 +574,18 @@ Definition check_step (contents : list content) (t : track) (o : sop) (bytes : l
                        | _ => Bad 111
                        end
                    end
-          | SResp id pl err =>
+          | SResp id pl err _ =>
               if negb (ret =? 1) then Bad 100
               else if negb err then
                 match bytes with [] => Good (with_store t s') | _ => Bad 130 end
               else
                 let sent0 := filter (fun i => negb (i =? id)) (tk_sent t) in
+                if negb (cur_eqb (t_cursor s') (t_cursor pre)) then Bad 136      (* the cursor is put back *)
+                else
                 match t_sent s' with
                 | [] =>
-                    (* nothing re-transmitted: then nothing may be placed either (store would report ENOENT) *)
-                    Good (mkTrack s' (tk_ids t) sent0 (tk_where t))
+                    (* nothing re-transmitted: then no placement is created or removed either *)
+                    if pl_same after before then Good (mkTrack s' (tk_ids t) sent0 (tk_where t)) else Bad 133
                 | [(i, im)] =>
                     match cid_of_id id (tk_ids t) with
                     | None => Bad 131
@@ -580,20 +595,38 @@ Definition check_step (contents : list content) (t : track) (o : sop) (bytes : l
                         | Some c =>
                             if negb ((i =? id) && timage_eqb im c) then Bad 109
                             else
-                              (* the placement is re-created where draw had put it *)
-                              let placed_ok :=
-                                match pl with
-                                | Some p =>
-                                    match where_pos id p (tk_where t) with
-                                    | Some pos => existsb (fun e => let '(i', p', c') := e in
-                                                                    (i' =? id) && (p' =? p) &&
-                                                                    match c' with Some cp => pos_eqb cp pos | None => false end)
-                                                          (t_places s')
-                                    | None => true
+                              match pids_named its with
+                              | Some [pid] =>
+                                  if pid =? 0 then Bad 112
+                                  (* exactly one placement, of this image; its old placements went with the old data *)
+                                  else if negb (pl_same after ((id, pid) :: filter (fun p => negb (fst p =? id)) before))
+                                  then Bad 134
+                                  else
+                                    match pl with
+                                    | Some p =>
+                                        if ID_MAX <? p then
+                                          (* not an id a terminal can report: no expectation on where it goes *)
+                                          Good (mkTrack s' (tk_ids t) (id :: sent0) (tk_where t))
+                                        else if (1 <=? p) && negb (p =? pid) then Bad 135   (* the reported placement is re-created *)
+                                        else
+                                          (* where: the cursor position at the time of the placement command *)
+                                          match find (fun e => (place_id e =? id) && (place_pid e =? pid)) (t_places s') with
+                                          | Some (_, _, Some cp) =>
+                                              if match where_pos id pid (tk_where t) with
+                                                 | Some pos => negb (pos_eqb cp pos)      (* where draw had put it *)
+                                                 | None => false
+                                                 end then Bad 132
+                                              else match (if in_range cp then learn_where id cp pid (tk_where t)
+                                                          else Some (tk_where t)) with
+                                                   | None => Bad 113
+                                                   | Some w' => Good (mkTrack s' (tk_ids t) (id :: sent0) w')
+                                                   end
+                                          | _ => Bad 137    (* placed without moving the cursor to a known position *)
+                                          end
+                                    | None => Good (mkTrack s' (tk_ids t) (id :: sent0) (tk_where t))
                                     end
-                                | None => true
-                                end in
-                              if placed_ok then Good (mkTrack s' (tk_ids t) (id :: sent0) (tk_where t)) else Bad 132
+                              | _ => Bad 111
+                              end
                         end
                     end
                 | _ => Bad 108
